@@ -34,7 +34,9 @@ ArgLists ==
     [] Fn = "merge" -> {<<x>> : x \in TakeN(VOf(MT), 10) \cup TakeN(VOf(OT), 8)}
                        \cup {<<p[1], p[2]>> : p \in SameTy(TakeN(VOf(MT), 24) \cup TakeN(VOf(OT), 14))}
                        \cup {<<p[1], p[2], p[1]>> : p \in SameTy(TakeN(VOf({TMap(TNum)}), 8))}
-    [] Fn = "concat" -> {<<x>> : x \in TakeN(Lists, 10)} \cup {<<p[1], p[2]>> : p \in SameTy(TakeN(Lists, 30))}
+    [] Fn = "concat" -> {<<x, y>> : x \in TakeN(Vals(TList(TStr), W), 4) \cup {SeqV(TList(TBool), <<>>), SeqV(TList(TBool), <<BoolV(TRUE)>>)}, y \in TakeN(Vals(TList(TNum), W), 4) \cup {SeqV(TList(TStr), <<>>)}}
+                        \cup {<<y, x>> : x \in TakeN(Vals(TList(TStr), W), 3), y \in TakeN(Vals(TList(TNum), W), 3)}
+                        \cup {<<x>> : x \in TakeN(Lists, 10)} \cup {<<p[1], p[2]>> : p \in SameTy(TakeN(Lists, 30))}
                         \cup {<<x, y>> : x \in TakeN(Tuples, 8), y \in TakeN(Tuples, 8)} \cup {<<x, y, x>> : x \in TakeN(Tuples, 4), y \in TakeN(Tuples, 4)}
     [] Fn = "slice" -> {<<v, i, j>> : v \in TakeN(Lists, 14) \cup TakeN(Tuples, 8), i \in Idx, j \in Idx}
     [] Fn = "chunklist" -> {<<v, i>> : v \in TakeN(Lists, 40), i \in Idx}
